@@ -31,12 +31,13 @@ func HarnessC16(m, withNil, withBase int) {
 		{Name: "X", Type: hType(hTP0), Tag: reflect.StructTag(`argmapper:"` + fieldSp + `"`)},
 		{Name: "Y", Type: hType(hTP2), Tag: `argmapper:"cd,subtype=s"`},
 		{Name: "Z", Type: hType(hTP1), Tag: `argmapper:",typeOnly,subtype=s"`},
+		{Name: "W", Type: hType(hTP3), Tag: `argmapper:",typeOnly"`},
 	})
-	var got [3]int
+	var got [4]int
 	ran := 0
 	fn := reflect.MakeFunc(reflect.FuncOf([]reflect.Type{st}, nil, false), func(args []reflect.Value) []reflect.Value {
 		ran++
-		for i := 0; i < 3; i++ {
+		for i := 0; i < 4; i++ {
 			_, got[i] = hUnpack(args[0].Field(i + 1).Interface())
 		}
 		return nil
@@ -111,6 +112,22 @@ func HarnessC16(m, withNil, withBase int) {
 		opts = append([]Arg{Named("ab", hP0{basePay[0]}), NamedSubtype("cd", hP2{basePay[1]}, "s"), TypedSubtype(hP1{basePay[2]}, "s")}, opts...)
 		desc = "[base defaults ab, cd/s, P1/s] " + desc
 	}
+	// the type-only parameter W is supplied by one multi-value Typed option that also
+	// carries nil values (ignored) at a symbolic position; it is always the first default
+	wPay := vnPayload("w")
+	var wOpt Arg
+	switch hPick("wnil", 4) {
+	case 0:
+		wOpt = Typed(hP3{wPay})
+	case 1:
+		wOpt = Typed(nil, hP3{wPay})
+	case 2:
+		wOpt = Typed(hP3{wPay}, nil)
+	default:
+		wOpt = Typed(nil, hP4{wPay}, nil, hP3{wPay})
+	}
+	opts = append([]Arg{wOpt}, opts...)
+	base++
 	d := hPick("defaults", m+1)
 	e := d + hPick("firstcall", m-d+1)
 	vnNote(fmt.Sprintf("field spelling %q; options: %s; defaults [0,%d) first call [%d,%d) second call [%d,%d)", fieldSp, desc, d, d, e, e, m))
@@ -145,7 +162,7 @@ func HarnessC16(m, withNil, withBase int) {
 		vnCover("C16.call-returned")
 		// effective option list of this call: defaults ++ this call's options
 		last := [3]int{-1, -1, -1}
-		if base > 0 {
+		if withBase == 1 {
 			last = [3]int{-2, -2, -2} // the base default of the key
 		}
 		nilArg := false
@@ -183,6 +200,7 @@ func HarnessC16(m, withNil, withBase int) {
 		vnAssert(got[0] == want(0), "C16.named-last-occurrence-wins-case-insensitively")
 		vnAssert(got[1] == want(1), "C16.named-subtype-last-occurrence-wins-case-insensitively")
 		vnAssert(got[2] == want(2), "C16.typed-subtype-last-occurrence-wins")
+		vnAssert(got[3] == wPay, "C16.multi-value-typed-option-with-nils-supplies-its-values")
 		for k := 0; k < 3; k++ {
 			if last[k] < d {
 				vnCover("C16.default-applies")
@@ -251,4 +269,37 @@ func HarnessC16Perm(n, conv int) {
 	}
 	vnAssert(found, "C16.permutation-target-ran")
 	vnCover("C16.permutation-checked")
+}
+
+// HarnessC16Alias — defaults given at construction apply otherwise, also when the
+// slices two functions were constructed from share one backing array with spare
+// capacity and one of the functions is called with options of its own.
+func HarnessC16Alias(_ int) {
+	hOrderSites(0)
+	var gotA, gotB int
+	fn := func(in struct {
+		Struct
+		A hP0
+		B hP1
+	}) {
+		gotA, gotB = in.A.ID, in.B.ID
+	}
+	a0, b0, b1, a2 := vnPayload("a0"), vnPayload("b0"), vnPayload("b1"), vnPayload("a2")
+	common := make([]Arg, 0, 8)
+	common = append(common, Named("a", hP0{a0}))
+	f0, err0 := NewFunc(fn, append(common, Named("b", hP1{b0}))...)
+	fB, err1 := NewFunc(fn, append(common, Named("b", hP1{b1}))...)
+	vnAssert(err0 == nil && err1 == nil, "C16.alias.setup")
+	if err0 != nil || err1 != nil {
+		return
+	}
+	vnNote("two functions built from append(common, ...) with spare capacity")
+	r := f0.Call(Named("A", hP0{a2}))
+	vnAssert(r.Err() == nil && gotA == a2, "C16.alias.call-option-overrides-default")
+	r = fB.Call()
+	vnAssert(r.Err() == nil, "C16.alias.second-function-call-succeeds")
+	vnAssert(gotA == a0 && gotB == b1, "C16.alias.other-function's-defaults-are-untouched")
+	r = f0.Call()
+	vnAssert(r.Err() == nil && gotA == a0, "C16.alias.default-applies-again")
+	vnCover("C16.alias-checked")
 }
